@@ -14,11 +14,17 @@ pub struct Ctx { pub tier: String, pub seed: u64, pub driver: Driver, pub thorou
 
 fn main() {
     let args: Vec<String> = std::env::args().collect();
-    if args.len() < 6 && !(args.len() >= 3 && (args[1] == "replay-step" || args[1] == "print-ast")) {
+    if args.len() < 6 && !(args.len() >= 3 && (args[1] == "replay-step" || args[1] == "print-ast" || args[1] == "rerun-step")) {
         eprintln!("usage: aquaharness <property> <quick|thorough> <seed> <driver> <report.json> [replay-file]");
         std::process::exit(2);
     }
     if args[1] == "print-ast" { props::probe::print_ast(&std::fs::read_to_string(&args[2]).unwrap()); return; }
+    if args[1] == "rerun-step" {
+        let v: serde_json::Value = serde_json::from_str(&std::fs::read_to_string(&args[2]).unwrap()).unwrap();
+        std::panic::set_hook(Box::new(|_| {}));
+        props::probe::rerun_step(&v);
+        return;
+    }
     if args[1] == "replay-step" {
         let v: serde_json::Value = serde_json::from_str(&std::fs::read_to_string(&args[2]).unwrap()).unwrap();
         let idx: usize = args.get(3).and_then(|s| s.parse().ok()).unwrap_or(0);
